@@ -496,6 +496,18 @@ func (e *Engine) applyCall(st *State, fr *Frame, instr ssa.Instruction, c *ssa.C
 	for i, a := range allArgs {
 		sv[fmt.Sprintf("$%d", i)] = a
 	}
+	if e.baseExt != nil {
+		if sf := c.StaticCallee(); sf != nil && statefulExternal(sf) && !e.baseExt[sf.String()] {
+			// the contracts and the prelude speak only about the library functions the pinned source uses
+			e.oblige(st, "spawn", "uses-a-library-function-no-contract-speaks-about:"+shortName(sf.String()), "false", nil, pos)
+		} else if c.IsInvoke() && c.Method.Pkg() != nil {
+			for _, sp := range statefulPkgs {
+				if c.Method.Pkg().Path() == sp && !e.baseExt["invoke:"+c.Method.FullName()] {
+					e.oblige(st, "spawn", "uses-a-library-function-no-contract-speaks-about:"+c.Method.FullName(), "false", nil, pos)
+				}
+			}
+		}
+	}
 	e.siteEvent(st, fr, "call", name, sv, pos)
 	if !c.IsInvoke() && c.StaticCallee() == nil {
 		e.siteEvent(st, fr, "dyncall", name, sv, pos)
